@@ -167,9 +167,13 @@ class LRUTrieNode(object):
 
                 while True:
                     tail_block += self.storage.block_size
-                    data = struct.unpack(
-                        LRU_TRIE_NODE_FORMAT, self.storage.read(tail_block)
-                    )
+                    tail_data = self.storage.read(tail_block)
+
+                    # The tail may be missing if a crash truncated the store
+                    if tail_data is None:
+                        break
+
+                    data = struct.unpack(LRU_TRIE_NODE_FORMAT, tail_data)
                     chars = data[LRU_TRIE_NODE_STEM]
 
                     chunks.append(chars)
